@@ -27,7 +27,7 @@ ASSUMPTIONS = ["muutils sanitize_fname / shorten_numerical_to_str define the two
 NSHARDS = {"quick": 16, "thorough": 16}
 FIELDS = ["name", "grid_n", "n_mazes", "maze_ctor", "maze_ctor_kwargs", "endpoint_kwargs", "seed", "applied_filters"]
 THRESHOLDS = {"quick": {"c18:roundtrip": 2000, "c18:roundtrip-json": 2000, "c18:hash-cross-process": 2000, "c18:hashseeds": 3,
-                        **{f"c18:pair:{f}": 100 for f in FIELDS}, "c18:fname": 2000, "c18:cache-file-names": 8, "c18:cache-file-names:dot-in-name-or-count": 5, "c18:collection-cfg": 50,
+                        **{f"c18:pair:{f}": 100 for f in FIELDS}, "c18:fname": 2000, "c18:loaded-config-edited-by-caller": 800, "c18:cache-file-names": 8, "c18:cache-file-names:dot-in-name-or-count": 5, "c18:collection-cfg": 50,
                         "c18:in-place": 500, "c18:serialized-dict-edited-by-caller": 300, "c18:in-place:container-edit": 100, "c18:eq": 500, "c18:tuples-restored:endpoint": 300, "c18:tuples-restored:filters": 300, "c18:gen:gen_dfs": 1,
                         "c18:gen:gen_wilson": 1, "c18:gen:gen_percolation": 1, "c18:gen:gen_dfs_percolation": 1, "c18:gen:gen_prim": 1}}
 THRESHOLDS["thorough"] = dict(THRESHOLDS["quick"])
@@ -210,6 +210,21 @@ def check_roundtrip(ctx, spec, cfg, via_json):
         if any(f["args"] for f in fa):
             ctx.tally("c18:tuples-restored:filters")
         ctx.check(int(back.stable_hash_cfg()) == int(cfg.stable_hash_cfg()), f"{mech}/hash-changes-over-roundtrip", "", case)
+        # the loaded configuration is the caller's own object: a variant is made of it by editing its containers in place (another
+        # generator argument, endpoint option, one more recorded filter); every configuration loaded afterwards is judged as usual
+        _EDITS[0] += 1
+        if _EDITS[0] % 3 == 0:
+            try:
+                back.maze_ctor_kwargs["do_forks"] = False
+                back.maze_ctor_kwargs["vmon_variant"] = _EDITS[0]
+                back.endpoint_kwargs["endpoints_not_equal"] = True
+                back.applied_filters.append(dict(name="truncate_count", args=(1,), kwargs={}))
+                ctx.tally("c18:loaded-config-edited-by-caller")
+            except Exception:  # noqa: BLE001
+                ctx.tally("c18:loaded-config-not-editable(not judged)")
+
+
+_EDITS = [0]
 
 
 def _cache_file_names(ctx):
@@ -250,8 +265,44 @@ def _cache_file_names(ctx):
             shutil.rmtree(tmp, ignore_errors=True)
 
 
+def _custom_filter_records(ctx):
+    """configurations whose recorded filters hold the kind of entry `custom_maze_filter` writes (no 'args' key) or a hand-written
+    entry without 'kwargs': serialize -> load either refuses loudly, or gives back an equal configuration with the same records,
+    the same hash and the same file name"""
+    import copy
+
+    from maze_dataset import MazeDatasetConfig
+
+    recs = [[dict(name="__custom__:is_long", kwargs=dict(min_len=3))], [dict(name="path_length", args=(2,), kwargs={}), dict(name="__custom__:f", kwargs={})],
+            [dict(name="truncate_count", args=(3,))], [dict(name="__custom__:g", kwargs={}), dict(name="__custom__:h", kwargs=dict(a=1))]]
+    for j, rec in enumerate(recs):
+        if not ctx.mine(j):
+            continue
+        for via in ("load(serialize())", "json", "deepcopy"):
+            case = dict(records=rec, via=via)
+            with warnings.catch_warnings():
+                warnings.simplefilter("ignore")
+                cfg = MazeDatasetConfig(name=f"c18-custom-{j}", grid_n=3, n_mazes=4, applied_filters=copy.deepcopy(rec))
+                try:
+                    h0, f0 = int(cfg.stable_hash_cfg()), cfg.to_fname()
+                    if via == "deepcopy":
+                        back = copy.deepcopy(cfg)
+                    else:
+                        ser = cfg.serialize()
+                        back = MazeDatasetConfig.load(json.loads(json.dumps(ser)) if via == "json" else ser)
+                except Exception:  # noqa: BLE001
+                    ctx.tally("c18:custom-filter-record:refused")
+                    continue
+                ctx.ev(); ctx.tally("c18:custom-filter-record:round-tripped")
+                same = [(f.get("name"), tuple(f.get("args", ("<none>",))), dict(f.get("kwargs", {"<none>": 1}))) for f in back.applied_filters] == \
+                       [(f.get("name"), tuple(f.get("args", ("<none>",))), dict(f.get("kwargs", {"<none>": 1}))) for f in rec]
+                ctx.check(same and int(back.stable_hash_cfg()) == h0 and back.to_fname() == f0, "C18/roundtrip/filters-differ",
+                          lambda: f"{via}: records {rec} came back as {back.applied_filters}; hash {h0} -> {int(back.stable_hash_cfg())}"[:600], case)
+
+
 def run(ctx):
     _cache_file_names(ctx)
+    _custom_filter_records(ctx)
     from muutils.misc import sanitize_fname, shorten_numerical_to_str
     from maze_dataset.dataset.collected_dataset import MazeDatasetCollectionConfig
 
